@@ -100,7 +100,11 @@ func (engine) Minimise(env *core.Env, c *core.Case) *core.Case {
 		return c
 	}
 	sig := c.Signature
-	deadline := time.Now().Add(12 * time.Second)
+	budget := 12.0
+	if v, err := strconv.ParseFloat(os.Getenv("VERIF_MIN_S"), 64); err == nil && v > 0 {
+		budget = v
+	}
+	deadline := time.Now().Add(time.Duration(budget * float64(time.Second)))
 	tape := append([]uint32(nil), c.Tape...)
 	r0 := replayBody(env, b, tape, false)
 	if r0.sig != sig {
